@@ -651,6 +651,49 @@ CHECKS = {
             "window/2 is half of the Duration passed to the constructor; the last millisecond before the boundary is not judged (resolution of a Redis clock and of PX; the model itself keeps nanoseconds)",
         ],
     },
+    "C30": {
+        "level": "exploration",
+        "rule": ("plans: 1-4 Lua objects of the kinds NewLuaScript / ReadOnly / NoSha / ReadOnlyNoSha / Retryable / NoShaRetryable (a third of the SHA kinds with "
+                 "WithLoadSHA1), each with its own script text; 2-6 tasks of 1-4 Lua.Exec or Lua.ExecMulti(1-4 units) calls on the same and on different objects, every "
+                 "unit carrying a unique id as ARGV[1] that the body pushes to a list (read-only bodies: reads the list) and returns; script-cache states: scripts preloaded "
+                 "on some nodes or on none, 0-3 ghost SCRIPT FLUSH at seeded steps, node restarts that lose the cache; half of the plans fault-free, the others with 1-3 "
+                 "connection faults (reset, reset after execution, EOF, EOF mid-reply, write error, node restart with refused dials) and, in a third of them, a node that "
+                 "answers its next 1-3 commands with -LOADING; "
+                 "DisableRetry in a fifth of the plans; part 1 a single-node client, part 2 a cluster client over 2-3 shards (+0-1 replica) where ExecMulti loads the script "
+                 "on every node through Nodes(). oracle, from the model's command log (per id: every EVAL/EVALSHA(_RO) received, its reply, whether a body ran) and from a "
+                 "pass-through Client handed to lua.go that records the commands each call issued and the results it got: (1) per id the body ran at most once -- judged in "
+                 "fault-free plans for every script and under faults for scripts that are neither marked retryable nor read-only, or when DisableRetry is set; (2) an Exec "
+                 "of a SHA script issues EVALSHA(_RO) first and EVAL(_RO) only as its next command after that EVALSHA came back with NOSCRIPT, and the server sees an EVAL "
+                 "for an id only after it answered NOSCRIPT to an EVALSHA of that id; (3) NoSha objects never cause EVALSHA(_RO); (4) read-only objects only cause _RO "
+                 "commands; (5) WithLoadSHA1: no Exec issues SCRIPT LOAD after an Exec-issued SCRIPT LOAD of that object succeeded (or an ExecMulti whose loads all "
+                 "succeeded returned); (6) ExecMulti returns exactly one result per LuaExec and result i is a reply the server gave to the command carrying id i; "
+                 "non-trivial = an Exec went through NOSCRIPT -> EVAL or an ExecMulti of >= 2 units returned; distinct = distinct event-log hash"),
+        "parts": [
+            {"module": "rueidis", "scenario": "lua-exec", "quick": 20000, "thorough": 800000},
+            {"module": "rueidis", "scenario": "lua-exec", "variant": "cluster", "quick": 12000, "thorough": 400000},
+        ],
+        "expected_probes": ["noscript-then-eval", "ghost-script-flush", "node-restart-lost-script-cache", "executed-but-unanswered",
+                            "retryable-script-re-executed-after-fault", "exec-requested-sha-with-script-load", "first-exec-of-load-sha1-script-started-alone",
+                            "execmulti-loaded-script-on-several-nodes", "execmulti-spanned-nodes", "fault-free-plan",
+                            "evalsha-answered-with-another-error"],
+        "components": {"real": REAL, "stubs": STUBS},
+        "assumptions": [
+            "fakeredis' script cache, NOSCRIPT replies and Exec.ScriptRuns are correct (cross-checked per id against the RPUSHes the bodies made; a mismatch is a harness error)",
+            "a re-execution after a transport error is what the caller asked for when the script is marked retryable or read-only (the client retries read-only commands) and "
+            "retries are enabled: 'at most once' is not judged for those under faults",
+            "Lua.sha1Mu is held across the SCRIPT LOAD round trip and a goroutine blocked on a sync.RWMutex is not durably blocked under synctest: a call on a load-SHA1 object "
+            "whose SHA is still unknown is only started while no other call on that object is in flight, so concurrent first Execs waiting on the mutex are not explored",
+            "cluster part: keyed commands only; an Exec of a load-SHA1 object whose SHA is unknown would send the key-less SCRIPT LOAD to the node Go's map iteration yields "
+            "first, so such calls are issued as a one-unit ExecMulti; rule (5) is therefore exercised on the single-node part only; at most 4 nodes; no slot migration; "
+            "Lua.maxp and every multiplexer's parallelism are pinned to 16",
+            "ConnLifetime is not set (its re-send of outstanding commands is the known finding under C03)",
+            "restrictions that keep a run a function of its seed (each found by the determinism self-test): no call deadlines (a synchronous pipe arms the connection's "
+            "read deadline and the context's timer for the same instant); MaxFlushDelay 0; queues of 16-64 slots (never full); one wire per node in plans that restart a "
+            "node; the dead-pipe clean-up loop is run to its end inside the step in which the connection died (sched.Sim.Settle) instead of sleeping a fake millisecond "
+            "per turn; util.FastRand is a function of (seed, step, n); scheduler sleeps are 1 ns longer than announced (sched.Config.TickEpsilon); for cluster plans the "
+            "event-log hash is taken at the end of the workload phase (clusterClient.Close is asynchronous)",
+        ],
+    },
     "C41": {
         "level": "exploration",
         "rule": ("plans: 1-4 tasks, each 1-3 Pipeline / TxPipeline / Watch+TxPipeline sessions of the go-redis adapter on one shared client, 1-6 queued "
